@@ -15,3 +15,10 @@ import (
 func VerifBuildProxyHandlerChain(cm clusters.Manager) func(http.Handler, *genericapiserver.Config) http.Handler {
 	return buildProxyHandlerChainFunc(&proxyHandlerOptions{clusterManager: cm})
 }
+
+// VerifBuildProxyHandlerChainTraced: the same builder with proxy tracing enabled, as
+// --enable-proxy-tracing does (WithTraceLog wraps the request body of non-long-running
+// requests to clusters whose feature gate Tracing is on).
+func VerifBuildProxyHandlerChainTraced(cm clusters.Manager) func(http.Handler, *genericapiserver.Config) http.Handler {
+	return buildProxyHandlerChainFunc(&proxyHandlerOptions{clusterManager: cm, enableProxyTracing: true})
+}
